@@ -21,7 +21,7 @@ RULES = {
     "of each other are both candidates, or nesting >= 2",
     "mount_grid": "exhaustive: all ordered tables of <= 3 entries over 5 prefixes x 14 paths x 2 root paths (depth 1), both interfaces",
     "hosts": "Hypothesis: host tables of 1..4 patterns from a constructive family (escaped literal, optional www., wildcard "
-    "subdomain, optional port) so that membership is decided by construction, x Host values (members, members with prefix/suffix "
+    "subdomain, optional port, top-level alternation of literals) so that membership is decided by construction, x Host values (members, members with prefix/suffix "
     "junk, ports, upper-case, empty, absent); non-trivial = a near-miss host (junk around a member)",
 }
 ASSUMPTIONS = [
@@ -157,6 +157,8 @@ def host_language(pat, host):
         return host in (lit, "www." + lit)
     if kind == "sub":
         return host.endswith("." + lit) and "\n" not in host
+    if kind == "alt":
+        return host in lit.split("|")
     if kind == "port":
         if host == lit:
             return True
@@ -169,6 +171,8 @@ def host_language(pat, host):
 
 def host_regex(pat):
     kind, lit = pat
+    if kind == "alt":  # top-level alternation of escaped literals
+        return "|".join(re.escape(x) for x in lit.split("|"))
     e = re.escape(lit)
     return {"lit": e, "www": r"(www\.)?" + e, "sub": r".*\." + e, "port": e + r"(:\d+)?"}[kind]
 
@@ -282,10 +286,16 @@ LITS = ["example.com", "api.example.com", "localhost", "a-b.org", "x.y"]
 
 @st.composite
 def host_case(draw):
-    table = draw(st.lists(st.tuples(st.sampled_from(["lit", "www", "sub", "port"]), st.sampled_from(LITS)).map(list), min_size=1, max_size=4))
+    entry = st.one_of(
+        st.tuples(st.sampled_from(["lit", "www", "sub", "port"]), st.sampled_from(LITS)),
+        st.tuples(st.just("alt"), st.lists(st.sampled_from(LITS), min_size=2, max_size=3, unique=True).map("|".join)),
+    ).map(list)
+    table = draw(st.lists(entry, min_size=1, max_size=4))
     kind, lit = draw(st.sampled_from(table))
+    first = lit.split("|")[0]
     member = {"lit": lit, "www": draw(st.sampled_from([lit, "www." + lit])), "sub": draw(st.sampled_from(["a." + lit, "a.b." + lit, "." + lit])),
-              "port": draw(st.sampled_from([lit, lit + ":80", lit + ":8080"]))}[kind]
+              "port": draw(st.sampled_from([lit, lit + ":80", lit + ":8080"])), "alt": draw(st.sampled_from(lit.split("|")))}[kind]
+    lit = first
     mode = draw(st.sampled_from(["member", "member", "near", "near", "other", "absent"]))
     near = False
     if mode == "member":
